@@ -156,7 +156,17 @@ impl Check for C08 {
         let mut doc = cases::doc_opts_for(tier, &mut rng);
         doc.pay.max_len = doc.pay.max_len.min(300);
         let io = InputOpts { doc, faulted_pct: 25, truncated_pct: 15, random_pct: 0, soup_pct: 0, max_faults: 2 };
-        let gi = cases::gen_input(&mut rng, &spec, &io, &mut fs);
+        let mut gi = cases::gen_input(&mut rng, &spec, &io, &mut fs);
+        let mut deep: Option<u64> = None;
+        if rng.chance(1, 300) {
+            // a master nested in itself up to 150 deep (the roll-up recurses once per level)
+            let depth = *rng.pick(&[5usize, 20, 60, 150]);
+            if let Some((doc, g)) = crate::gen::gen_deep_doc(&mut rng, &spec, depth) {
+                gi.bytes = enc::encode(&doc).bytes;
+                gi.class = "valid";
+                deep = Some(g);
+            }
+        }
         let mut cfg = IterCfg::default();
         cfg.allow = cases::gen_allow(&mut rng, 80);
         cfg.max_size = if gi.class == "valid" { MaxSz::Default } else { MaxSz::Limit(1 << 20) };
@@ -183,6 +193,12 @@ impl Check for C08 {
             }
         }
         cfg.buffered = buffered;
+        if let Some(g) = deep {
+            // buffer an enclosing master (so that the nested instances are rolled up) or the recursive one itself
+            if rng.chance(1, 2) && !cfg.buffered.contains(&g) {
+                cfg.buffered.push(g);
+            }
+        }
         Case { rc: ReadCase { spec, input: Arc::new(gi.bytes), cfg, script, driver: Driver::UntilEnd { extra: 0 }, class: gi.class }, sweep }
     }
 
